@@ -278,7 +278,8 @@ def decide(ck, c, ir, mr, stats, engine="memory"):
         return
     if not l2ok:
         ck.report("corr:l2-cannot-run/" + l2st.split(" ")[0], "the L2 model can not interpret the optimised plan (%s): %s" % (l2st, plan[:300]), replay=rep, found_input=False)
-    elif sens and len(L2) == len(I):
+    elif sens:
+        # an order-dependent value may also feed HAVING / ORDER BY: not even the row count is predictable
         stats["order_sensitive_skipped"] += 1
     else:
         stats["model_vs_impl"]["compared"] += 1
@@ -307,7 +308,8 @@ def decide(ck, c, ir, mr, stats, engine="memory"):
             # every physical operator behaves like its spec, but the plan means something else
             # than the query: binder / optimizer changed the semantics
             explained = True
-            mech = "not-in-null-semantics" if "not-in" in shape else sc
+            mech = ("not-in-null-semantics" if "not-in" in shape else
+                    "not-exists-anti-join" if "not-exists" in shape else sc)
             t = "plan-semantics:" + mech
             stats["tags"][t] = stats["tags"].get(t, 0) + 1
             ck.report(t, what + " [optimised plan read with the L1 spec already differs from the query]", replay=rep)
